@@ -675,6 +675,8 @@ class ValueNode(SyntaxNodeBase):
                     self._value = int(parts[0])
                 else:
                     raise e
+            # the value the token was read as is now this integer, not the float it was first parsed as
+            self._og_value = self._value
         self._formatter = self._FORMATTERS[int].copy()
 
     def _convert_to_enum(
